@@ -205,10 +205,12 @@ def NoDupIx (A : Op R) : List GIx → Prop
       ((Ix.resolve A.rows s0).getD []).Nodup ∧ ((Ix.resolve A.cols s1).getD []).Nodup
   | _ => True
 
-/-- clause `getitem-list-zip`: two index lists have the same length (the code zips them,
-silently truncating to the shorter one). -/
+/-- clause `getitem-list-zip`: two index lists have the same, positive length.  The code zips
+them — silently truncating to the shorter one where NumPy broadcasts a length-1 list or raises
+`IndexError` (shape mismatch) — and stacks the selected entries, which raises `ValueError` for
+empty lists where NumPy returns an empty vector. -/
 def EqualLenLists : List GIx → Prop
-  | [.list li, .list lj] => li.length = lj.length
+  | [.list li, .list lj] => li.length = lj.length ∧ li ≠ []
   | _ => True
 
 
@@ -365,13 +367,14 @@ theorem getitem_ix_ix (A : Op R) (hg : Good A) (s0 s1 : Ix)
     | slice a b c => simp only [getitem, npIndex]; exact key
     | arr l1 => exact absurd hp (by simp [NoArrPair])
 
-/-- `A[[i…], [j…]]`, lists of equal length -/
+/-- `A[[i…], [j…]]`, lists of equal positive length -/
 theorem getitem_list_list (A : Op R) (hg : Good A) (li lj : List Int)
     (he : EqualLenLists [.list li, .list lj]) :
     GRes.Agree (A.getitem [.list li, .list lj])
       (npIndex A.rows A.cols A.den.f [.list li, .list lj]) := by
   simp only [EqualLenLists] at he
-  simp only [getitem, npIndex, if_pos he]
+  obtain ⟨he, hne⟩ := he
+  simp only [getitem, npIndex, npPaired, bcastIdx, if_pos he]
   rw [pairs_mapM A.rows A.cols li lj he]
   cases h0 : GRes.wrapAll A.rows li with
   | none => simp [GRes.Agree]
@@ -381,6 +384,19 @@ theorem getitem_list_list (A : Op R) (hg : Good A) (li lj : List Int)
     | some cs =>
       obtain ⟨l0, b0⟩ := GRes.wrapAll_spec _ _ _ h0
       obtain ⟨l1, b1⟩ := GRes.wrapAll_spec _ _ _ h1
+      have hlen : 0 < li.length := List.length_pos_of_ne_nil hne
+      -- the zipped list is not empty, so `stack` does not raise
+      obtain ⟨r0, rs', hrs⟩ : ∃ r0 rs', rs = r0 :: rs' := by
+        cases rs with
+        | nil => simp at l0; omega
+        | cons r0 rs' => exact ⟨r0, rs', rfl⟩
+      obtain ⟨c0, cs', hcs⟩ : ∃ c0 cs', cs = c0 :: cs' := by
+        cases cs with
+        | nil => simp at l1; omega
+        | cons c0 cs' => exact ⟨c0, cs', rfl⟩
+      have hz : rs.zip cs = (r0, c0) :: rs'.zip cs' := by rw [hrs, hcs, List.zip_cons_cons]
+      simp only [hz]
+      rw [← hz]
       simp only [GRes.Agree]
       refine ⟨by simp [List.length_zip]; omega, ?_⟩
       intro t ht
